@@ -6,7 +6,8 @@ from vlib import build
 from . import adftext as T
 from .semjobs import repo_test_instances
 
-MODES = ['native', 'bridge', 'hybrid', 'hybrid_noopt']
+MODES = ['native', 'bridge', 'hybrid', 'hybrid_noopt', 'hybrid_after']      # hybrid_after: semantics are computed on the biodivine-based object before the pre-grounded bridge is taken
+PROBE_MODES = ['native', 'bridge', 'hybrid', 'hybrid_noopt']
 PROBE_TEXT = 's("x(1)").s(b).ac("x(1)",neg(b)).ac(b,"x(1)").'
 
 
@@ -61,7 +62,7 @@ def validate_program(nat, text, names, acs, mode, sort, stats, canary=False):
     if sorted(cn) != sorted(names): return [('*', 'names differ: %s vs %s' % (cn, names))], out
     X = {n: z3.Bool('x_' + hashlib.md5(n.encode()).hexdigest()[:8] + '_' + str(i)) for i, n in enumerate(names)}
     term = diagram_terms(nodes, cn, X)
-    ground = z3_grounded(names, acs, X, stats) if mode in ('hybrid', 'hybrid_rew') else {}
+    ground = z3_grounded(names, acs, X, stats) if mode in ('hybrid', 'hybrid_rew', 'hybrid_after') else {}
     sub = [(X[n], z3.BoolVal(v)) for n, v in ground.items()]
     s = z3.Solver(); dis = []
     for i, n in enumerate(cn):
@@ -86,7 +87,7 @@ def confirm(nat, text, names, acs, mode, sort, stmt, asg, stats):
     cn = out['names']; nodes = [(int(v), lo, hi) for v, lo, hi in out['nodes']]
     if not isinstance(asg, dict): return True, str(asg)
     a = dict(asg)
-    if mode in ('hybrid', 'hybrid_rew'):
+    if mode in ('hybrid', 'hybrid_rew', 'hybrid_after'):
         X = {n: z3.Bool('g_%d' % i) for i, n in enumerate(names)}
         for k, v in z3_grounded(names, acs, X, stats).items(): a[k] = v
     got = eval_nodes(nodes, cn, out['ac'][cn.index(stmt)], a)
@@ -180,7 +181,7 @@ def custom_run(ctx, tier, seed):
             if dis is None:
                 inconclusive.append('native compile failed (%s, %s): %s on %s' % (mode, sort, str(out)[:200], txt[:200])); continue
             nprog += 1; stmts += len(names)
-            if len(samples) < 4 and mode == MODES[pi % 4]:
+            if len(samples) < 4 and mode == MODES[pi % len(MODES)]:
                 samples.append({'origin': origin, 'mode': mode, 'sort': sort, 'statements': len(names), 'nodes': len(out['nodes']), 'text': txt[:300]})
             for stmt, asg in dis[:3]:
                 dis_checked += 1
@@ -192,7 +193,7 @@ def custom_run(ctx, tier, seed):
                 if ok: confirmed.append(('%s:%s:%s:%s' % (mode, sort, stmt, hashlib.sha1(txt.encode()).hexdigest()[:12]), v, detail))
                 else: inconclusive.append('z3 disagreement did not reproduce natively: ' + detail)
     # quoted labels may contain any character except the quote; the biodivine bridge is probed with one such label (fixed input)
-    for mode in MODES:
+    for mode in PROBE_MODES:
         txt = PROBE_TEXT
         names, acs, _ = T.parse(txt)
         dis, out = validate_program(nat, txt, names, acs, mode, 'none', stats)
